@@ -22,15 +22,4 @@ Definition C10_stack_words_statement : Prop :=
 Definition C10_memory_word_granular_statement : Prop :=
   forall e c f, reachable_g keccak blockhash e c -> In f (c_frames c) -> (length (f_mem f) mod 32 = 0)%nat.
 
-(** contract used by C09: a top-level call never returns more gas than it was given and leaves the
-    world unchanged unless it succeeds.  The first half follows from C10_gas_monotone and the second
-    from C10_failed_frame_no_change; the combined statement over [run_call] has not been assembled. *)
-Definition C10_exec_ok_statement : Prop :=
-  forall e w t input g v, 0 <= g < 2 ^ 64 - 1 ->
-    match c_status (run_call keccak blockhash e w t input g v) with
-    | Final o _ g' => 0 <= g' <= g /\ (o <> OOk -> c_world (run_call keccak blockhash e w t input g v) = w)
-    | Unsupported => True
-    | Running => False
-    end.
-
 End Open.
